@@ -436,6 +436,7 @@ theorem remote_label_only_via_prepare (cfg0 : Config) (hist : List (Op × Oracle
   | fsMount id l ok => cases ok <;> exact same ha
   | fsUnmount d ok => cases d <;> exact same ha
   | mkdirId id => rw [(mkdirId_facts s' id).2.2.2.1] at ha; exact same ha
+  | mkdirFs id => exact same ha
   | mkTemp t => exact same ha
   | rename t id => exact same ha
   | rmdir d => exact same ha
